@@ -15,13 +15,13 @@ RULE = ("every program exported by spec/Pep.tla is built twice and solved throug
 
 def select(t, c):
     step, prop, name, detail = c
+    if prop == "ALL":
+        return sc.crash(t, c, PID, 'mosek')
     o = t["solves"][step - 1]
     w = o["opts"]["wrapper"]
     cls = sc.CLASSNAME.get(t["prog"]["cls"], "?")
     if prop == "C11":
         return "C11|%s|%s" % (name, o["opts"]["heur"]), "solve %d %s: %s (detail %s)" % (step, sc.solvestr(o), name, detail)
-    if prop == "ALL" and w == "mosek":
-        return "C11|%s" % name, "the MOSEK path raised where the cvxpy path solved: %s" % name
     if w == "mosek" and prop in ("C01", "C02") and not name.startswith("identity-with-lmi-not-symmetric") \
             and not (step >= 2 and t["solves"][step - 2]["opts"]["wrapper"] == "mosek"):       # re-solves belong to C13
         first = [x for x in t.get("_clauses", []) if x[0] != step and x[1] == prop and x[2] == name]
